@@ -2038,3 +2038,111 @@ def rule_copy_exactly_for_values(ctx, rep: Report, rid="H11"):
                     f"this path copies without having excluded both", f"{ci.mod.rel}:{c.lineno}")
     if n < 2:
         raise AnalysisError(f"{rep.prop}/{rid}: only {n} make_shared sites found in the MATLAB generator")
+
+
+def rule_base_class_spelling(ctx, rep: Report, rid="T13"):
+    """A derived class names its base twice in the classdef file: in `classdef D < Base` and in the constructor's
+    `obj = obj@Base(...)`.  Both must be the MATLAB name under which the base's own classdef is generated: the package
+    path of *all* its namespaces, dots in between, template arguments folded into the name.  Each of the two spellings
+    is followed back to the parent type and classified: a spelling that goes through a formatter consulting
+    `ignore_namespace` loses the namespaces of a base called Matrix / Vector / Point2 / Point3; a spelling taken from
+    str() / to_cpp() of the type keeps C++ template brackets (`gtsam.BetweenFactor<gtsam.Pose3>`), which is no MATLAB name."""
+    ci, prog = mw(ctx)
+    from .emit import Folder
+
+    def reads_ignore_namespace(e, fn, depth=3) -> bool:
+        for c in ast.walk(e):
+            if isinstance(c, ast.Call) and isinstance(c.func, ast.Attribute) and unparse(c.func.value) == "self":
+                h = prog.find_method(ci, c.func.attr)
+                if h is None:
+                    continue
+                uses = [a for a in ast.walk(h[1]) if isinstance(a, ast.Attribute) and a.attr == "ignore_namespace"]
+                # the formatter consults the list only while it writes namespaces: a call that asks for none, and adds
+                # them itself from `.namespaces`, is not affected
+                off = [k.arg for k in c.keywords if isinstance(k.value, ast.Constant) and k.value.value is False]
+                if uses and off and all(any(t.replace(" ", "") in off for t, pol in guards_of(a, h[1], include_exits=False) if pol) for a in uses) \
+                        and any(isinstance(x, ast.Attribute) and x.attr == "namespaces" for x in ast.walk(e)):
+                    continue
+                if uses:
+                    return True
+                if depth > 0:
+                    for r in walk_no_nested(h[1]):
+                        if isinstance(r, ast.Return) and r.value is not None and reads_ignore_namespace(r.value, h[1], depth - 1):
+                            return True
+        return False
+
+    def cpp_spelling(e) -> bool:
+        return any(isinstance(c, ast.Call) and ((isinstance(c.func, ast.Name) and c.func.id in ("str", "repr")) or
+                                                (isinstance(c.func, ast.Attribute) and c.func.attr == "to_cpp")) for c in ast.walk(e)) \
+            and not any(isinstance(c, ast.Call) and isinstance(c.func, ast.Attribute) and c.func.attr == "_format_type_name" for c in ast.walk(e))
+    sites = []
+    for mname, marker in (("wrap_instantiated_class", "classdef @ < @"), ("wrap_class_constructors", "obj = obj@")):
+        fn = prog.method("MatlabWrapper", mname)
+        fo = Folder(prog, ci.mod, fn, ci)
+        found = None
+        for c in walk_no_nested(fn):
+            if isinstance(c, ast.Call) and isinstance(c.func, ast.Attribute) and c.func.attr == "format":
+                t = fo.fold(c)
+                if t is None:
+                    continue
+                lit = " ".join(t.literal("@").split())
+                if mname == "wrap_instantiated_class" and lit.startswith("classdef @ < @"):
+                    found = (t.slots()[1].expr, c)
+                if mname == "wrap_class_constructors" and "obj = obj@@(" in lit.replace(" ", " "):
+                    found = (t.slots()[0].expr, c)
+        if found is None:
+            raise AnalysisError(f"{mname}: the template naming the base class was not found")
+        e, c = found
+        full = inline_locals(fn, e)
+        # a parameter re-bound before use (parent_name = self._format_type_name(parent_name, ...))
+        if isinstance(full, ast.Name):
+            vs = [st.value for st in walk_no_nested(fn) if isinstance(st, ast.Assign) and len(st.targets) == 1 and isinstance(st.targets[0], ast.Name)
+                  and st.targets[0].id == full.id]
+            if vs:
+                full = vs[-1]
+        sites.append((mname, fn, full, c))
+    for mname, fn, e, c in sites:
+        where = "classdef line" if mname == "wrap_instantiated_class" else "constructor's superclass call"
+        rep.add(rid, f"base class:{where}:keeps every namespace of the base, whatever it is called",
+                not reads_ignore_namespace(e, fn),
+                f"`{unparse(e)[:70]}` goes through a formatter that drops the namespaces of types named Matrix / Vector / Point2 / Point3: "
+                f"`class Marker : gtsam::Point3` names its base `Point3` here while the base's classdef is `gtsam.Point3`", f"{ci.mod.rel}:{c.lineno}")
+        rep.add(rid, f"base class:{where}:template arguments folded into the MATLAB name", not cpp_spelling(e),
+                f"`{unparse(e)[:70]}` is the C++ spelling with `::` replaced: a templated base keeps its angle brackets "
+                f"(`gtsam.BetweenFactor<gtsam.Pose3>`), which is not the name of the generated class `gtsam.BetweenFactorPose3`", f"{ci.mod.rel}:{c.lineno}")
+
+
+def rule_every_element_kind_is_wrapped_on_every_path(ctx, rep: Report, rid="T14"):
+    """MatlabWrapper.wrap_namespace handles includes, nested namespaces, enums and classes in its content loop and the
+    free functions of the namespace in a separate step after it.  Both happen for every namespace: no `return` leaves the
+    function before the content loop and the free-function step have run (a shortcut for "nothing to create here" taken
+    before the functions are wrapped removes their .m files and MEX routines without an error)."""
+    ci, prog = mw(ctx)
+    fn = prog.method("MatlabWrapper", "wrap_namespace")
+    np_ = func_params(fn)[1]
+    steps = []
+    for i, st in enumerate(fn.body):
+        if isinstance(st, ast.For) and unparse(st.iter) == f"{np_}.content":
+            steps.append(("content loop", i, st))
+        for c in ast.walk(st):
+            if isinstance(c, ast.Call) and unparse(c.func) == "self.wrap_methods" and any(
+                    (isinstance(a, ast.Constant) and a.value is True) for a in list(c.args) + [k.value for k in c.keywords]):
+                if not any(s[0] == "free functions" for s in steps):
+                    steps.append(("free functions", i, st))
+    kinds = {s[0] for s in steps}
+    if kinds != {"content loop", "free functions"}:
+        raise AnalysisError(f"MatlabWrapper.wrap_namespace: steps found {sorted(kinds)}; the content loop and the free-function step are expected at the top level of the function")
+    last = max(i for _, i, _ in steps)
+    early = [r.lineno for i, st in enumerate(fn.body[:last]) for r in ast.walk(st) if isinstance(r, ast.Return)]
+    guarded = [name for name, i, st in steps if isinstance(st, ast.If)]
+    rep.add(rid, "wrap_namespace:the content loop and the free-function step run for every namespace", not early and not guarded,
+            f"`return` at line {early} leaves the function before the free functions of the namespace are wrapped" if early else
+            f"step(s) {guarded} run only under a condition", f"{ci.mod.rel}:{(early or [fn.lineno])[0]}")
+    # the functions collected for that step are all the GlobalFunction elements of the namespace
+    ff = steps[[s[0] for s in steps].index("free functions")][2]
+    call = next(c for c in ast.walk(ff) if isinstance(c, ast.Call) and unparse(c.func) == "self.wrap_methods")
+    arg = inline_locals(fn, call.args[0]) if call.args else None
+    ok = isinstance(arg, ast.ListComp) and len(arg.generators) == 1 and unparse(arg.generators[0].iter) == f"{np_}.content" \
+        and len(arg.generators[0].ifs) == 1 and "GlobalFunction" in unparse(arg.generators[0].ifs[0]) and unparse(arg.elt) == unparse(arg.generators[0].target)
+    rep.add(rid, "wrap_namespace:every free function of the namespace is handed to the function wrapper", bool(ok),
+            f"argument `{unparse(arg)[:80] if arg is not None else None}`", f"{ci.mod.rel}:{call.lineno}", nontrivial=False)
